@@ -105,6 +105,17 @@ class Fold:
         self.state = {}
         self.order = []
 
+        def cell_hook(n, tr_):
+            # a cell that an earlier statement of the block assigned, read on a right-hand side (ic[2] = ic[0] + f), stands for that value
+            if n.get("k") == "ArraySubscriptExpr" or (n.get("k") == "CXXOperatorCallExpr" and n.get("op") == "[]"):
+                try:
+                    key = lvalue_key(n, tr_)
+                except Unconvertible:
+                    return None
+                return self.state.get(key)
+            return None
+        self.tr.hooks.append(cell_hook)
+
     def old(self, key):
         return self.tr.sym("old_" + "_".join(str(x) for x in key[1:]))
 
